@@ -331,3 +331,6 @@ for tier in ('quick', 'thorough'):
     PROPS['C04']['mir'][tier][-1]['scenarios'] += ['fold@ind', 'iter.fold@ind', 'iter.rfold@ind']
 PROPS['C06']['mir']['quick'].append({'scenarios': ['iter.fold@ind', 'iter.rfold@ind'], 'nmax': 3, 'timeout': 1800, 'soft_inconclusive': True})
 PROPS['C04']['technique'] = 'symbolic execution of rustc MIR with unwind edges, drop flags and an element-ownership ledger + z3: the panic point is a symbolic choice over every call of caller code; pipelines both unrolled (N <= 3/6) and summarised by an auto-checked loop invariant (all N); Kani/CBMC for the guards\' Drop impls'
+
+for tier in ('quick', 'thorough'):
+    PROPS['C04']['mir'][tier][-1]['scenarios'] += ['iter.clone@ind']
